@@ -33,6 +33,11 @@ thread_local! {
 }
 
 thread_local! {
+    /// how many more states of the running history are checked against the persisted-state relation
+    static PERSIST_BUDGET: std::cell::Cell<u32> = const { std::cell::Cell::new(0) };
+}
+
+thread_local! {
     /// seek-charge tracker of the history running on this thread (see `seekcheck.rs`)
     static SEEK: std::cell::RefCell<crate::seekcheck::SeekTracker> = std::cell::RefCell::new(crate::seekcheck::SeekTracker::default());
 }
@@ -53,15 +58,33 @@ pub struct Cfg {
     pub block: usize,
     pub reuse: bool,
     pub bloom_bits: usize,
+    /// every open of the history uses ONE `DbOptions` value (struct update from a per-history base),
+    /// as an application that keeps its options around does: the block cache inside the options is
+    /// then shared by all instances of the history, across close and reopen
+    pub share: bool,
+}
+
+thread_local! {
+    /// the `DbOptions` every sharing open of the history running on this thread is derived from
+    static BASE_OPTS: std::cell::RefCell<Option<DbOptions>> = const { std::cell::RefCell::new(None) };
+}
+
+/// forget the shared options (a new history starts)
+pub fn reset_shared_options() {
+    BASE_OPTS.with(|b| *b.borrow_mut() = None);
 }
 
 impl Cfg {
     pub fn to_tok(&self) -> String {
-        format!("{}/{}/{}/{}/{}", self.memtable, self.file, self.block, if self.reuse { 1 } else { 0 }, self.bloom_bits)
+        if self.share {
+            format!("{}/{}/{}/{}/{}/1", self.memtable, self.file, self.block, if self.reuse { 1 } else { 0 }, self.bloom_bits)
+        } else {
+            format!("{}/{}/{}/{}/{}", self.memtable, self.file, self.block, if self.reuse { 1 } else { 0 }, self.bloom_bits)
+        }
     }
     pub fn from_tok(s: &str) -> Option<Cfg> {
         let p: Vec<&str> = s.split('/').collect();
-        if p.len() != 5 {
+        if p.len() != 5 && p.len() != 6 {
             return None;
         }
         Some(Cfg {
@@ -70,6 +93,7 @@ impl Cfg {
             block: p[2].parse().ok()?,
             reuse: p[3] == "1",
             bloom_bits: p[4].parse().ok()?,
+            share: p.get(5).map_or(false, |x| *x == "1"),
         })
     }
     pub fn gen(rng: &mut Prng) -> Cfg {
@@ -79,6 +103,7 @@ impl Cfg {
             block: *rng.pick(&[16usize, 64, 128, 256, 1024, 4096]),
             reuse: rng.chance(1, 2),
             bloom_bits: *rng.pick(&[1usize, 4, 10, 10, 16, 64]),
+            share: rng.chance(1, 2),
         }
     }
     pub fn options(&self, fs: &SimFs) -> DbOptions {
@@ -92,7 +117,11 @@ impl Cfg {
             create_if_missing: true,
             error_if_exists: false,
             reuse_log_files: self.reuse,
-            ..DbOptions::default()
+            ..(if self.share {
+                BASE_OPTS.with(|b| b.borrow_mut().get_or_insert_with(DbOptions::default).clone())
+            } else {
+                DbOptions::default()
+            })
         }
     }
 }
@@ -604,7 +633,8 @@ pub fn validate_state(drv: &mut crate::drv::Drv, db: &DB, st: &StateDump, probes
     // the relation between the instance and its disk image that the composition theorems
     // (Rain/Props/Persist.lean) maintain, evaluated on this real state: the image is rebuilt from the
     // recorded filesystem operations (only at quiescent points: no immutable memtable)
-    if st.imm.is_none() {
+    // (the image is rebuilt from the whole operation log every time: at most three states per history)
+    if st.imm.is_none() && std::env::var("VERIF_NO_PERSIST").is_err() && PERSIST_BUDGET.with(|b| { let v = b.get(); if v > 0 { b.set(v - 1); true } else { false } }) {
         let stream = TABLE_SIZES.with(|f| f.borrow().as_ref().and_then(|fs| crate::crash::model_stream(fs)));
         if let Some(stream) = stream {
             let ops = stream.iter().map(|x| x.0.as_str()).collect::<Vec<_>>().join(" ");
@@ -888,6 +918,8 @@ pub fn run_history(h: &History, checks: &Checks, fs: &SimFs) -> RunOut {
     let mut completed = 0usize;
     let _ = raindb::verif::events_take(DB_PATH);
     raindb::verif::set_level_one_max_bytes(0);
+    reset_shared_options();
+    PERSIST_BUDGET.with(|b| b.set(3));
     raindb::verif::set_seek_events(checks.drv_path.is_some());
     SEEK.with(|t| t.borrow_mut().reset_all());
     TABLE_SIZES.with(|f| *f.borrow_mut() = Some(fs.clone()));
@@ -1664,7 +1696,12 @@ pub fn gen_key(rng: &mut Prng, space: u64) -> Vec<u8> {
         4 => format!("key{:03}", i / 12).into_bytes(),
         5 => format!("key{:03}x", i / 12).into_bytes(),
         6 => {
+            // keys of more than 64 bytes that differ only in their last byte (every second one of
+            // this class: 90 bytes with an 89-byte common prefix)
             let mut k = b"prefix/shared/long/".to_vec();
+            if (i / 12) % 2 == 1 {
+                k.extend_from_slice(&[b'p'; 70]);
+            }
             k.push(b'a' + (i / 12 % 16) as u8);
             k
         }
